@@ -31,7 +31,7 @@ CHUNK = {'quick': 20, 'thorough': 40}
 RULE = ('one case = one seeded history (6-30 ops: tile request, clock advance incl. sub-second / to a second boundary / '
         'backwards, threshold change (relative in seconds ... weeks, absolute time as ISO string or datetime object, mtime of a file), touch of the mtime file, ageing of one stored tile, a disk error inside the next store, soft failure of an optional transparent overlay source (uncacheable result), upstream '
         'fail/recover, refresh seed task) on one deployment (file cache or per-level sqlite cache; single-tile or meta-tile '
-        'creation; seeded fixed-offset local time zone; the tile manager may come out of the configuration loader (cache with refresh_before and two grids); the upstream may report an age for its data, as a cache used as a '
+        'creation; seeded local time zone (fixed offsets, one with daylight-saving time in force); seeded upstream latency (1 ms or none) and scheduling policy; the tile manager may come out of the configuration loader (cache with refresh_before and two grids); the upstream may report an age for its data, as a cache used as a '
         'source does); non-trivial = some request hit a cached tile while a threshold was in force and the oracle decided '
         'must-refresh or must-not-refresh (not the unspecified same-second band); distinct = distinct (deployment, ops) hash')
 COMPONENTS = {
